@@ -478,3 +478,113 @@ Proof.
   unfold contributed. split; intros [a [Ha [Hr Hx]]]; exists a; (split; [exact Ha|]); (split; [|exact Hx]);
     apply reach_all_iff; exact Hr.
 Qed.
+
+(** * with_model_type in closed form *)
+Section SerClosed.
+  Variable prims : list name.
+  Variable m : mm.
+  Variable anc : amap.
+  Hypothesis Hwf : wf prims m.
+  Variable order : list name.
+  Variable smap : list (name * option bool).
+  Hypothesis Et : topo_sort prims m = Ok order.
+  Hypothesis Hs : stack_serializations prims m anc order = (smap, false).
+
+  Lemma ser_fold_cp_stable : forall l st k,
+    (In k l -> is_cp prims m anc k = true) ->
+    lookup k (fst (fold_left (ser_step prims m anc) l st)) = lookup k (fst st).
+  Proof.
+    induction l as [|n l IH]; intros st k Hk; cbn [fold_left]; [reflexivity|].
+    rewrite IH; [|intro H; apply Hk; right; exact H].
+    destruct (list_eq_dec N.eq_dec k n) as [->|Hne].
+    - assert (Hcp : is_cp prims m anc n = true) by (apply Hk; left; reflexivity).
+      destruct st as [s e]. unfold ser_step. rewrite Hcp. reflexivity.
+    - apply ser_step_other. exact Hne.
+  Qed.
+
+  Lemma sv_cp : forall c, In c m -> is_cp prims m anc (c_name c) = true ->
+    sv smap (c_name c) = c_wmt c.
+  Proof.
+    intros c Hc Hcp. destruct Hwf as [Hnd _]. unfold sv.
+    assert (E : lookup (c_name c) smap = Some (c_wmt c)).
+    { unfold stack_serializations in Hs.
+      pose proof (ser_fold_cp_stable order (map (fun c0 => (c_name c0, c_wmt c0)) m, false)
+                    (c_name c) (fun _ => Hcp)) as H.
+      rewrite Hs in H. cbn [fst] in H. rewrite H.
+      apply (lookup_init _ (fun x => c_wmt x)); assumption. }
+    rewrite E. destruct (c_wmt c); reflexivity.
+  Qed.
+
+  Notation reachs := (reach prims m (is_cp prims m anc)).
+
+  (** The setting of a class after propagation is [Some v] exactly if the class itself or
+      a class it reaches through its bases declares [v]. *)
+  Theorem model_type_closed_thm : forall c, In c m -> forall v,
+    sv smap (c_name c) = Some v <->
+    exists a, In a m /\ reachs (c_name c) (c_name a) /\ c_wmt a = Some v.
+  Proof.
+    pose proof Hwf as [Hnd [Hbases [rank Hrank]]].
+    intros c Hc v. split.
+    - assert (Hgen : forall k c0, In c0 m -> rank (c_name c0) < k ->
+                sv smap (c_name c0) = Some v ->
+                exists a, In a m /\ reachs (c_name c0) (c_name a) /\ c_wmt a = Some v).
+      { induction k as [|k IH]; intros c0 Hc0 Hk Hv; [lia|].
+        destruct (is_cp prims m anc (c_name c0)) eqn:Ecp.
+        - rewrite (sv_cp c0 Hc0 Ecp) in Hv. exists c0. split; [exact Hc0|].
+          split; [apply reach_refl | exact Hv].
+        - destruct (model_type_consistent_thm prims m anc Hwf order smap Et Hs c0 Hc0 Ecp)
+            as [_ [_ H3]].
+          destruct (H3 v Hv) as [Hown|[b [Hb Hvb]]].
+          + exists c0. split; [exact Hc0|]. split; [apply reach_refl | exact Hown].
+          + rewrite <- (not_cp_no_prim prims m anc c0 Hc0 Hnd Ecp) in Hb.
+            destruct (find_class_In m b (Hbases c0 b Hc0 Hb)) as [bc Hbc].
+            pose proof (find_class_Some _ _ _ Hbc) as [Hbcm Hbcn]. subst b.
+            destruct (IH bc Hbcm) as [a [Ha [Hr Hw]]].
+            * pose proof (Hrank c0 (c_name bc) Hc0 Hb). lia.
+            * exact Hvb.
+            * exists a. split; [exact Ha|]. split; [|exact Hw].
+              eapply reach_step; [exact Ecp | | exact Hr].
+              exists c0. split; [apply find_class_unique; assumption | exact Hb]. }
+      apply (Hgen (S (rank (c_name c))) c Hc). lia.
+    - intros [a [Ha [Hr Hw]]].
+      assert (Hgen : forall n an, reachs n an ->
+                forall c0, In c0 m -> c_name c0 = n -> c_name a = an -> sv smap n = Some v).
+      { clear c Hc Hr. intros n an Hr.
+        induction Hr as [n|n b an Hsk Hb Hr IH]; intros c0 Hc0 En Ean.
+        - assert (a = c0) by (apply (names_inj m a c0 Hnd Ha Hc0); congruence). subst a.
+          rewrite <- En.
+          destruct (is_cp prims m anc (c_name c0)) eqn:Ecp.
+          + rewrite (sv_cp c0 Hc0 Ecp). exact Hw.
+          + destruct (model_type_consistent_thm prims m anc Hwf order smap Et Hs c0 Hc0 Ecp)
+              as [_ [H2 _]]. apply H2. exact Hw.
+        - rewrite <- En in Hsk, Hb |- *.
+          destruct Hb as [cl [Hcl Hbb]].
+          rewrite (find_class_unique m c0 Hnd Hc0) in Hcl. injection Hcl as <-.
+          destruct (find_class_In m b (Hbases c0 b Hc0 Hbb)) as [bc Hbc].
+          pose proof (find_class_Some _ _ _ Hbc) as [Hbcm Hbcn].
+          pose proof (IH bc Hbcm Hbcn Ean) as Hvb.
+          destruct (model_type_consistent_thm prims m anc Hwf order smap Et Hs c0 Hc0 Hsk)
+            as [H1 _].
+          apply (H1 b v); [|exact Hvb].
+          rewrite <- (not_cp_no_prim prims m anc c0 Hc0 Hnd Hsk). exact Hbb. }
+      exact (Hgen (c_name c) (c_name a) Hr c Hc eq_refl eq_refl).
+  Qed.
+End SerClosed.
+
+Theorem model_type_closed_acc : forall prims m r, translate prims m = Ok r ->
+  exists (skipped : name -> bool),
+    forall c, In c m ->
+      exists ci, class_ir r (c_name c) = Some ci /\ skipped (c_name c) = i_is_cp ci
+        /\ (i_is_cp ci = false ->
+              (i_wmt ci = Some true <->
+               exists a, In a m /\ reach prims m skipped (c_name c) (c_name a) /\ c_wmt a = Some true)).
+Proof.
+  intros prims m r H. pose proof (accepted_wf prims m r H) as Hwf. pose proof Hwf as [Hnd _].
+  destruct (translate_inv prims m r H)
+    as [order [anc [smap [mmap [kmap [ifm [Hpo [Et [Ea [Hs [Hpv [Hm [Hk [Hi [Hv ->]]]]]]]]]]]]]]].
+  exists (is_cp prims m anc). intros c Hc. eexists. split.
+  { unfold class_ir. cbn [r_classes]. apply find_map_name; [intro x; reflexivity | exact Hnd | exact Hc]. }
+  cbn [ir_of i_wmt i_is_cp]. split; [reflexivity|]. intro Hcp. rewrite Hcp.
+  rewrite <- (model_type_closed_thm prims m anc Hwf order smap Et Hs c Hc true).
+  unfold final_wmt, sv. destruct (lookup (c_name c) smap) as [[[|]|]|]; split; congruence.
+Qed.
